@@ -58,8 +58,11 @@ def _has_guard(fn: ast.AST, var: str) -> bool:
     test = False
     grow = False
     for n in ast.walk(fn):
-        if isinstance(n, ast.Compare) and any(isinstance(o, (ast.In, ast.NotIn)) for o in n.ops):
-            if any(isinstance(c, ast.Name) and c.id == var for c in n.comparators):
+        # `if <x> in var: ... return / raise` (the exit must be in the body of that very `if`)
+        if isinstance(n, ast.If) and isinstance(n.test, ast.Compare) and len(n.test.ops) == 1 \
+                and isinstance(n.test.ops[0], ast.In) \
+                and any(isinstance(c, ast.Name) and c.id == var for c in n.test.comparators):
+            if any(isinstance(b, (ast.Return, ast.Raise)) for b in n.body):
                 test = True
         if isinstance(n, ast.Call) and isinstance(n.func, ast.Attribute) and n.func.attr == "add":
             if isinstance(n.func.value, ast.Name) and n.func.value.id == var:
